@@ -4,7 +4,7 @@ from .. import common, gen, modelio, pipefam, pool, cli
 
 RULE = ("malformed stream: one defect inserted into an otherwise valid generated pair -- duplicate gene identifier (same / other "
         "chromosome, at first / last / random row positions), strand symbol outside + - . (at first / last / random rows), each required "
-        "column dropped in turn, chromosome sets differing with equal and unequal cardinality (also in an output directory used before for the valid pair under other file names with the same stem before the first dot); strand symbols include the tokens table readers take for missing (NA, empty, null, ...); every fifth variant with a defect of the gene annotation, and every missing-column variant (either file) a second time, in an output directory where the valid pair "
+        "column dropped in turn (also: present under another header; dropped while a column of notes is present), chromosome sets differing with equal and unequal cardinality (also in an output directory used before for the valid pair under other file names with the same stem before the first dot); strand symbols include the tokens table readers take for missing (NA, empty, null, ...); every fifth variant with a defect of the gene annotation, and every missing-column variant (either file) a second time, in an output directory where the valid pair "
         "was processed before, with older modification times; gene files of 10400 rows (thorough: up to 70000) with the duplicate identifier on rows far apart or adjacent across a round row count; every variant through the real library "
         "stages (must raise, no <genome>_<chrom>.h5 left) and a sample through the CLI (exit status non-zero, no result file); "
         "non-trivial = defect not in the first row; distinct = canonical JSON of the variant")
@@ -44,11 +44,23 @@ def variants(r, base, all_positions):
         c["genes"][i]["strand"] = BAD_STRANDS[_bad_i[0] % len(BAD_STRANDS)]; _bad_i[0] += 1     # every symbol in turn
         c["defect"] = "strand %r at gene row %d" % (c["genes"][i]["strand"], i); c["pos"] = i
         out.append(c)
+    ALIAS = {"Gene_Name": "ID", "Chromosome": "Chr", "Start": "Begin", "Stop": "End", "Strand": "Sense", "Length": "Len", "Order": "Class", "SuperFamily": "Family"}
     for col in G_REQUIRED:
         c = copy.deepcopy(base); c["drop_gene_cols"] = [col]; c["defect"] = "gene column %s missing" % col; c["pos"] = 1
         out.append(c)
+        # the column is missing while the file has columns the pipeline does not know: its data under another header, or a column of notes
+        c = copy.deepcopy(base); c["rename_gene_cols"] = {col: ALIAS[col]}; c["missing_gene_cols"] = [col]
+        c["defect"] = "gene column %s missing (present under the header %s)" % (col, ALIAS[col]); c["pos"] = 1
+        out.append(c)
+        c = copy.deepcopy(base); c["drop_gene_cols"] = [col]; c["extra_gene_cols"] = ["Note"]; c["defect"] = "gene column %s missing (and a column Note present)" % col; c["pos"] = 1
+        out.append(c)
     for col in T_REQUIRED:
         c = copy.deepcopy(base); c["drop_te_cols"] = [col]; c["defect"] = "TE column %s missing" % col; c["pos"] = 1
+        out.append(c)
+        c = copy.deepcopy(base); c["rename_te_cols"] = {col: ALIAS[col]}; c["missing_te_cols"] = [col]
+        c["defect"] = "TE column %s missing (present under the header %s)" % (col, ALIAS[col]); c["pos"] = 1
+        out.append(c)
+        c = copy.deepcopy(base); c["drop_te_cols"] = [col]; c["extra_te_cols"] = ["Note"]; c["defect"] = "TE column %s missing (and a column Note present)" % col; c["pos"] = 1
         out.append(c)
     from .c05 import mismatch_cases
     for m in mismatch_cases(r, base):
@@ -88,8 +100,8 @@ def model_expr(c):
     rk, order = modelio.ranks(c)
     gl, tl, res = modelio.lits(c, rk)
     f, d, l = c["windows"]
-    gh = "[" + "; ".join(v for k, v in GCOL.items() if k not in c.get("drop_gene_cols", [])) + "]"
-    th = "[" + "; ".join(v for k, v in TCOL.items() if k not in c.get("drop_te_cols", [])) + "]"
+    gh = "[" + "; ".join(v for k, v in GCOL.items() if k not in c.get("drop_gene_cols", []) + c.get("missing_gene_cols", [])) + "]"
+    th = "[" + "; ".join(v for k, v in TCOL.items() if k not in c.get("drop_te_cols", []) + c.get("missing_te_cols", [])) + "]"
     return ("match run_files %s %s %s %s %s %s %s %s with inl MissingColumn => [-5] | inl (Rejected e) => [err_code e] | inr _ => [0] end"
             % (res, gh, th, common.zlit(f), common.zlit(d), common.zlit(l), gl, tl))
 
@@ -110,7 +122,7 @@ def run(chk):
     extra = []
     for i, c in enumerate(vs):
         # a missing column of either file is noticed when the file is imported, whatever the directory holds
-        dropped = c.get("drop_gene_cols") or c.get("drop_te_cols")
+        dropped = (c.get("drop_gene_cols") or c.get("drop_te_cols")) and not (c.get("extra_gene_cols") or c.get("extra_te_cols"))
         # only defects of the GENE annotation: without --revise_anno an existing revised TE annotation is reused and an edited TE
         # file is not read at all (the caching that C13 describes), so a defect put into it is invisible by design
         gene_side = c["tes"] == c["_base"]["tes"] and not c.get("drop_te_cols")
@@ -156,7 +168,7 @@ def run(chk):
             nv += 1
             if nv <= 2:
                 chk.violation("malformed annotation pair not rejected before a result was written: " + c["defect"],
-                              {"case": {k: c[k] for k in ("genes", "tes", "windows", "before") if k in c}, "drop_gene_cols": c.get("drop_gene_cols", []),
+                              {"case": {k: c[k] for k in ("genes", "tes", "windows", "before", "rename_gene_cols", "rename_te_cols", "extra_gene_cols", "extra_te_cols") if k in c}, "drop_gene_cols": c.get("drop_gene_cols", []),
                                "drop_te_cols": c.get("drop_te_cols", []), "defect": c["defect"], "failure": bad})
         if flats is not None:
             chk.cov["traces_validated_against_impl"] += 1
@@ -184,7 +196,7 @@ def run(chk):
         chk.count("cli_runs")
         if rep["rc"] == 0 or rep["files"]:
             chk.violation("CLI: malformed pair not rejected (exit %s, result files %s): %s" % (rep["rc"], [f["file"] for f in rep["files"]], c["defect"]),
-                          {"case": {k: c[k] for k in ("genes", "tes", "windows")}, "drop_gene_cols": c.get("drop_gene_cols", []),
+                          {"case": {k: c[k] for k in ("genes", "tes", "windows", "before", "rename_gene_cols", "rename_te_cols", "extra_gene_cols", "extra_te_cols") if k in c}, "drop_gene_cols": c.get("drop_gene_cols", []),
                            "drop_te_cols": c.get("drop_te_cols", []), "defect": c["defect"], "log": rep["log"][-600:]})
     from .. import guardunit
     guardunit.run(chk, chk.rng("guards"), {"split", "strand"})
